@@ -26,6 +26,12 @@ import (
 	"strings"
 )
 
+// Also supported: x[:] (the whole slice) and conversions such as []byte(s) (spelled through
+// callSubst "[]byte"). Opt-in per target: optFields (struct fields that are nil-able wherever they
+// occur), outArgs (calls that assign through a `&x` argument: the Lean function returns the new
+// value of x paired with the call's result), wrapErrors (fmt.Errorf with %w keeps the kind of the
+// wrapped error: GoLite.wrapf). A local bound to the result of a dropped call
+// (`lg := log.GetLogger(ctx)`) is a logger under whatever name: binding and calls on it are dropped.
 type g2lTarget struct {
 	file, recv, fn string
 	leanName       string            // name of the Lean definition
@@ -46,6 +52,9 @@ type g2lTarget struct {
 	dropAssign []string // assignment targets (exprText) whose assignments are left out; each is an
 	// abstraction that must be named in the trusted base of the theorem that uses the translation
 	nres int // number of results of the part (closures: of the function literal)
+	optFields  []string       // struct field names that hold nil-able values (pointers, nil-able slices)
+	outArgs    map[string]int // Go callee text -> index of the `&x` argument the call assigns
+	wrapErrors bool           // fmt.Errorf("..%w..", .., err) -> GoLite.wrapf (the kind of err is kept)
 }
 
 type g2l struct {
@@ -56,6 +65,7 @@ type g2l struct {
 	owned map[string]bool // locals holding a value created in this function (literal, make, var of value type):
 	// only these may be updated in place - anything else may alias memory the caller or another
 	// variable sees, which a value-semantics translation would silently lose
+	drop []string // dropCalls of the target + "<v>." for every local v := <dropped call>(..)
 }
 
 var leanReserved = map[string]bool{"end": true, "from": true, "at": true, "open": true, "then": true, "do": true, "fun": true,
@@ -86,7 +96,46 @@ func (g *g2l) isOpt(e ast.Expr) bool {
 	if id, ok := e.(*ast.Ident); ok {
 		return g.opt[id.Name]
 	}
+	if se, ok := e.(*ast.SelectorExpr); ok {
+		return g.optField(se.Sel.Name)
+	}
 	return false
+}
+
+func (g *g2l) optField(name string) bool {
+	for _, f := range g.t.optFields {
+		if f == name {
+			return true
+		}
+	}
+	return false
+}
+
+// wrapVerbArg returns the argument matched by the %w verb of a fmt.Errorf call, if any.
+func wrapVerbArg(format string, args []ast.Expr) ast.Expr {
+	n := 0
+	for i := 0; i+1 < len(format); i++ {
+		if format[i] != '%' {
+			continue
+		}
+		j := i + 1
+		for j < len(format) && strings.ContainsRune("+-# 0123456789.[]*", rune(format[j])) {
+			j++
+		}
+		if j >= len(format) {
+			break
+		}
+		if format[j] == '%' {
+			i = j
+			continue
+		}
+		if format[j] == 'w' && n < len(args) {
+			return args[n]
+		}
+		n++
+		i = j
+	}
+	return nil
 }
 
 func isNil(e ast.Expr) bool {
@@ -159,6 +208,10 @@ func (g *g2l) expr(e ast.Expr) string {
 		return g.call(x)
 	case *ast.CompositeLit:
 		return g.composite(x)
+	case *ast.SliceExpr:
+		if x.Low == nil && x.High == nil && x.Max == nil {
+			return g.expr(x.X) // x[:] - the whole array / slice
+		}
 	}
 	g.fail(e, "unsupported expression %s (%T)", exprText(e), e)
 	return ""
@@ -214,6 +267,9 @@ func (g *g2l) binary(x *ast.BinaryExpr) string {
 
 func (g *g2l) call(x *ast.CallExpr) string {
 	name := callName(x)
+	if _, ok := x.Fun.(*ast.ArrayType); ok {
+		name = exprText(x.Fun) // conversion such as []byte(s): spelled through callSubst
+	}
 	var kept []ast.Expr
 	for _, e := range x.Args {
 		drop := false
@@ -263,6 +319,11 @@ func (g *g2l) call(x *ast.CallExpr) string {
 	case "errors.New", "fmt.Errorf":
 		if bl, ok := x.Args[0].(*ast.BasicLit); ok && bl.Kind == token.STRING {
 			v, _ := strconv.Unquote(bl.Value)
+			if g.t.wrapErrors && name == "fmt.Errorf" {
+				if w := wrapVerbArg(v, x.Args[1:]); w != nil {
+					return "(GoLite.wrapf " + leanStr(v) + " " + g.expr(w) + ")"
+				}
+			}
 			return "(GoLite.errorf " + leanStr(v) + ")"
 		}
 		return "(GoLite.errorf \"\")"
@@ -339,7 +400,11 @@ func (g *g2l) composite(x *ast.CompositeLit) string {
 		if !ok {
 			g.fail(x, "positional struct literal")
 		}
-		fs = append(fs, g2lIdent(kv.Key.(*ast.Ident).Name)+" := "+g.expr(kv.Value))
+		fv := g.expr(kv.Value)
+		if _, isCall := kv.Value.(*ast.CallExpr); g.optField(kv.Key.(*ast.Ident).Name) && !isNil(kv.Value) && !g.isOpt(kv.Value) && !isCall {
+			fv = "(some " + fv + ")"
+		}
+		fs = append(fs, g2lIdent(kv.Key.(*ast.Ident).Name)+" := "+fv)
 	}
 	return "({ " + strings.Join(fs, ", ") + " } : " + tn + ")"
 }
@@ -395,13 +460,35 @@ func (g *g2l) dropped(s ast.Stmt) bool {
 	if !ok {
 		return false
 	}
+	return g.droppedCall(c)
+}
+
+func (g *g2l) droppedCall(c *ast.CallExpr) bool {
 	n := callName(c)
-	for _, p := range g.t.dropCalls {
+	drop := g.drop
+	if drop == nil {
+		drop = g.t.dropCalls
+	}
+	for _, p := range drop {
 		if strings.HasPrefix(n, p) {
 			return true
 		}
 	}
 	return false
+}
+
+// loggerDecl: `v := log.GetLogger(ctx)` - a local bound to the result of a dropped call
+func (g *g2l) loggerDecl(s ast.Stmt) (string, bool) {
+	as, ok := s.(*ast.AssignStmt)
+	if !ok || as.Tok != token.DEFINE || len(as.Lhs) != 1 || len(as.Rhs) != 1 {
+		return "", false
+	}
+	id, ok := as.Lhs[0].(*ast.Ident)
+	c, ok2 := as.Rhs[0].(*ast.CallExpr)
+	if !ok || !ok2 || !g.droppedCall(c) {
+		return "", false
+	}
+	return id.Name, true
 }
 
 // pure reports that a statement list has no effect on the result: only dropped calls,
@@ -438,6 +525,10 @@ func (g *g2l) inert(list []ast.Stmt, inLoop bool) bool {
 				return false
 			}
 		case *ast.EmptyStmt:
+		case *ast.AssignStmt:
+			if _, ok := g.loggerDecl(s); !ok {
+				return false
+			}
 		default:
 			return false
 		}
@@ -538,6 +629,25 @@ func g2lCreates(e ast.Expr) bool {
 	return false
 }
 
+// outArg: for a call listed in outArgs, the variable behind its `&x` argument
+func (g *g2l) outArg(e ast.Expr) ast.Expr {
+	c, ok := e.(*ast.CallExpr)
+	if !ok {
+		return nil
+	}
+	i, ok := g.t.outArgs[callName(c)]
+	if !ok || i >= len(c.Args) {
+		return nil
+	}
+	if ue, ok := c.Args[i].(*ast.UnaryExpr); ok && ue.Op == token.AND {
+		if _, ok := ue.X.(*ast.Ident); ok {
+			return ue.X
+		}
+	}
+	g.fail(e, "out argument %d of %s is not `&x`", i, callName(c))
+	return nil
+}
+
 // value of e when stored into lhs (nil-able targets get `some`)
 func (g *g2l) valueFor(lhs ast.Expr, e ast.Expr) string {
 	v := g.expr(e)
@@ -604,12 +714,23 @@ func (g *g2l) stmt(o *g2lOut, ind int, s ast.Stmt) {
 			g.assignTo(o, ind, x.Lhs[0], "("+g.expr(x.Lhs[0])+" "+op+" "+g.expr(x.Rhs[0])+")", false, s)
 		case x.Tok != token.ASSIGN && x.Tok != token.DEFINE:
 			g.fail(s, "assignment operator %s", x.Tok)
+		case len(x.Lhs) == 1 && len(x.Rhs) == 1 && g.outArg(x.Rhs[0]) != nil:
+			// r := f(a, &v): the Lean f returns (new v, r)
+			c := x.Rhs[0].(*ast.CallExpr)
+			out := g.outArg(x.Rhs[0])
+			o.line(ind, "let (o', r') := "+g.call(c))
+			g.assignTo(o, ind, out, "o'", false, s)
+			g.assignTo(o, ind, x.Lhs[0], "r'", define, s)
 		case len(x.Lhs) == len(x.Rhs):
 			for i := range x.Lhs {
 				if id, ok := x.Lhs[i].(*ast.Ident); ok {
 					g.owned[id.Name] = g2lCreates(x.Rhs[i])
 				}
-				g.assignTo(o, ind, x.Lhs[i], g.valueFor(x.Lhs[i], x.Rhs[i]), define, s)
+				v := g.valueFor(x.Lhs[i], x.Rhs[i])
+				if id, ok := x.Lhs[i].(*ast.Ident); ok && define && !g.declared[id.Name] && g.isOpt(x.Rhs[i]) {
+					g.opt[id.Name] = true // a variable initialised from a nil-able value is nil-able
+				}
+				g.assignTo(o, ind, x.Lhs[i], v, define, s)
 			}
 		case len(x.Rhs) == 1:
 			// tuple-valued right-hand side: a call, or `v, ok := m[k]`
@@ -618,6 +739,21 @@ func (g *g2l) stmt(o *g2lOut, ind int, s ast.Stmt) {
 				rhs = "(GoLite.Map.lookup " + g.expr(ie.X) + " " + g.expr(ie.Index) + ")"
 			} else {
 				rhs = g.expr(x.Rhs[0])
+			}
+			if !define {
+				// re-assignment of existing variables / fields through fresh names
+				var tmp []string
+				for i := range x.Lhs {
+					tmp = append(tmp, fmt.Sprintf("t%d'", i))
+				}
+				o.line(ind, "let ("+strings.Join(tmp, ", ")+") := "+rhs)
+				for i, l := range x.Lhs {
+					if id, ok := l.(*ast.Ident); ok && id.Name == "_" {
+						continue
+					}
+					g.assignTo(o, ind, l, tmp[i], false, s)
+				}
+				return
 			}
 			var names []string
 			for _, l := range x.Lhs {
@@ -895,6 +1031,16 @@ func g2lTranslate(t *g2lTarget) string {
 	for _, v := range t.optVars {
 		g.opt[v] = true
 	}
+	// locals that only hold a logger: calls on them are dropped like the calls that made them
+	g.drop = append([]string{}, t.dropCalls...)
+	ast.Inspect(fd.Body, func(n ast.Node) bool {
+		if s, ok := n.(ast.Stmt); ok {
+			if v, ok := g.loggerDecl(s); ok {
+				g.drop = append(g.drop, v+".")
+			}
+		}
+		return true
+	})
 	// locals shadowing a package name are locals
 	ast.Inspect(fd.Body, func(n ast.Node) bool {
 		if as, ok := n.(*ast.AssignStmt); ok && as.Tok == token.DEFINE {
